@@ -14,3 +14,9 @@ package asthelper
 
 //@ func IntLit
 //@   inline
+
+//@ func ByteSliceType
+//@   inline
+
+//@ func ArrayType
+//@   inline
